@@ -21,6 +21,7 @@ import WpModel.Model.ExpandersC07
 import WpModel.Model.DescriptorsC07
 import WpModel.Model.NumericC07
 import WpModel.Model.GridLineC07
+import WpModel.Model.FontFamilyC07
 
 namespace Wp.Witness.C07
 open Wp Wp.Decl Wp.Var
@@ -51,5 +52,11 @@ theorem grid_line_css_wide_as_ident :
     GridLine07.gridLine [.ident "inherit" "inherit", .int 2] = some (.line false (some 2) (some "inherit")) ∧
     GridLine07.gridLine [.ident "span" "span", .ident "initial" "initial"]
       = some (.line true none (some "initial")) := by decide
+
+/-- The same finding in `font-family`: css-fonts-4 §3.1 excludes the CSS-wide keywords from unquoted family names
+(`font-family: inherit, serif` is invalid); `font_family` takes any identifier: the family `inherit` is kept
+(finding `css-wide-keyword-as-ident`; `C07.font_family_one_partial` therefore only says "identifier tokens"). -/
+theorem font_family_css_wide_as_ident :
+    Font07.fontFamily [[.ident "inherit"], [.ident "serif"]] = some ["inherit", "serif"] := by decide
 
 end Wp.Witness.C07
